@@ -1,13 +1,14 @@
 SPECIFICATION Spec
 CONSTANTS
-  Catalogue <- CatFull
+  Catalogue <- CatH1
   DiskC = "A"
   DiskR = "A"
   Feat = {"msg", "poll", "health", "usage", "stop"}
   Feeds <- FeedsTwo
-  MaxCum = 2
-  Steps = {1, 2}
+  MaxCum = 1
+  Steps = {1}
   Outcomes = {"ok", "fail", "pendok", "hold"}
+  ZeroReports = "keys"
   RetryFailed = TRUE
   Faithful = FALSE
 INVARIANTS TypeOK AppliedIsInForce FailedIsRefused EffectiveInForce Conservation NoDoubleCount StopUnhealthy StopEnds
